@@ -653,6 +653,72 @@ def routes_from_config(mi: int, swap: bool, plen_i: int, with_default: bool):
         check(nowhere is None, "uncovered destination got a route although no default route is declared")
 
 
+def reach_after_loop(n_stray: int, from_in: bool, stray_from: int, warm: bool):
+    """A firewall whose default route points at an upstream router that holds a summary route back to it (a common
+    set-up): packets for an unused address of the summarised range bounce between the two until their TTL runs out -
+    handling them terminates, nothing is delivered - and AFTERWARDS the permitted exchanges between the real hosts still
+    succeed in both directions (a stray packet must not poison what the devices have learnt)."""
+    from primaite.simulator.network.hardware.nodes.network.router import ACLAction
+
+    assume(all_of(rng(n_stray, 0, 2), rng(stray_from, 0, 1)))
+    n = pick_int(n_stray, 0, 2)
+    sf = pick_int(stray_from, 0, 1)
+    from_in = True if from_in else False
+    with concrete():
+        quiet()
+        sim = new_sim()
+        net = sim.network
+        fw = mk_node("firewall", "fw", start_up_duration=0)
+        up = mk_node("router", "r_up", start_up_duration=0, num_ports=2)
+        pin = mk_host("computer", "pc_in", "192.168.1.2", gw="192.168.1.1", start_up_duration=0)
+        pout = mk_host("computer", "pc_out", "172.16.0.2", gw="172.16.0.1", start_up_duration=0)
+        for x in (fw, up, pin, pout):
+            x.power_on()
+            net.add_node(x)
+        fw.configure_internal_port("192.168.1.1", "255.255.255.0")
+        fw.configure_external_port("10.0.0.2", "255.255.255.252")
+        up.configure_port(port=1, ip_address="10.0.0.1", subnet_mask="255.255.255.252")
+        up.configure_port(port=2, ip_address="172.16.0.1", subnet_mask="255.255.255.0")
+        net.connect(fw.internal_port, pin.network_interface[1])
+        net.connect(fw.external_port, up.network_interface[1])
+        net.connect(up.network_interface[2], pout.network_interface[1])
+        fw.internal_port.enable()
+        fw.external_port.enable()
+        up.enable_port(1)
+        up.enable_port(2)
+        for acl in (fw.internal_inbound_acl, fw.internal_outbound_acl, fw.external_inbound_acl, fw.external_outbound_acl, fw.acl, up.acl):
+            acl.add_rule(action=ACLAction.PERMIT, position=1)
+        fw.route_table.set_default_route_next_hop_ip_address("10.0.0.1")
+        up.route_table.add_route(address="192.168.0.0", subnet_mask="255.255.0.0", next_hop_ip_address="10.0.0.2")  # summary back to the firewall
+        delivered = []
+        for h in (pin, pout):
+            orig = h.software_manager.receive_payload_from_session_manager
+            object.__setattr__(
+                h.software_manager,
+                "receive_payload_from_session_manager",
+                lambda *a, h=h, orig=orig, **k: (delivered.append(h.config.hostname) if getattr(k.get("frame"), "icmp", None) is not None else None, orig(*a, **k))[1],
+            )  # (address resolution also arrives this way: only ICMP deliveries are recorded)
+        try:
+            if warm:
+                pin.ping("172.16.0.2", pings=1)
+                pout.ping("192.168.1.2", pings=1)
+            for _ in range(n):
+                del delivered[:]
+                stray_ok = (pin if sf == 0 else pout).ping("192.168.77.7", pings=1)  # unused address inside the summary
+                if stray_ok or delivered:
+                    fail(f"a ping to an unused address was answered / delivered to {delivered}")
+            ok = False
+            src, dst_ip = (pin, "172.16.0.2") if from_in else (pout, "192.168.1.2")
+            for _ in range(3):
+                ok = src.ping(dst_ip, pings=1) or ok
+        except RecursionError:
+            fail("handling a packet for an unused address did not terminate (recursion)")
+        except Exception as e:
+            fail(f"raised {type(e).__name__}: {str(e)[:200]}")
+    cover("after_loop")
+    check(ok, lambda: f"after {n} stray packet(s) from {'pc_in' if sf == 0 else 'pc_out'} bounced between the firewall and the upstream router, ping {'pc_in->pc_out' if from_in else 'pc_out->pc_in'} fails although every device is up and permits it ({'warm' if warm else 'cold'} start)")
+
+
 def _two_router_lan():
     """One LAN (192.168.1.0/24, a switch) with TWO routers on it: r1 is the hosts' default gateway and routes the remote
     subnet 192.168.2.0/24 via r2 (192.168.1.254), which is attached to it directly. Replies from the remote subnet come
@@ -840,6 +906,13 @@ HARNESSES = {
         "thorough": [{"fixed": {}, "timeout": 400}],
         "cover": ["cfg_routes"],
         "bounds": "a router built by Router.from_config: 6 metric pairs (fractional, equal, near-equal, zero) in either order for two equal-prefix routes (/24 or /26) under a covering /16, with/without default route",
+    },
+    "reach_after_loop": {
+        "fn": reach_after_loop,
+        "quick": [{"fixed": {}, "timeout": 280}],
+        "thorough": [{"fixed": {}, "timeout": 600}],
+        "cover": ["after_loop"],
+        "bounds": "host - firewall (default route up) - router (summary route back) - host; 0-2 stray pings to an unused address of the summarised range from either side, then a ping between the hosts in either direction, cold or warm start",
     },
     "gateway_lan": {
         "fn": gateway_lan,
